@@ -306,6 +306,35 @@ theorem C19_rename_counterexample : ¬ (∀ n1 n2 : Str, rename true n1 = rename
   revert this
   decide
 
+/-! ## one exporter object used repeatedly -/
+
+/-- every `parse` of any history of `select` / `parse` calls on one exporter object returns the export
+    of the selection then in force (the last `select`, or the whole environment) with the options of
+    that very call — nothing of earlier calls is kept.  This is the model of the object; the real
+    objects are compared with it on every run by exporting each history step also with a fresh object. -/
+theorem C19_history {α β : Type} (exportF : α → List Param → β) (env : List Param) :
+    ∀ (pre : List (Call α)) (opts : α) (post : List (Call α)) (o : ExporterObj), o.env = env →
+      (runCalls exportF (pre ++ Call.parse opts :: post) o)[(runCalls exportF pre o).length]? =
+        some (exportF opts (currentSelection env pre o.data)) := by
+  intro pre
+  induction pre with
+  | nil => intro opts post o _; simp [runCalls, currentSelection]
+  | cons c pre ih =>
+    intro opts post o ho
+    cases c with
+    | select q t =>
+      simp only [List.cons_append, runCalls, currentSelection]
+      have := ih opts post { o with data := select q t o.env } ho
+      simpa [ho] using this
+    | parse o2 =>
+      simp only [List.cons_append, runCalls, currentSelection, List.length_cons, List.getElem?_cons_succ]
+      exact ih opts post o ho
+
+example : runCalls (fun (u : Bool) (d : List Param) => (u, d.map (·.name)))
+    [.parse true, .select (some (cs!"box.*")) none, .parse true, .parse false]
+    (ExporterObj.init [⟨cs!"box.w", .int, 32, .leaf (.i 1), none, []⟩, ⟨cs!"n", .int, 32, .leaf (.i 2), none, []⟩]) =
+    [(true, [cs!"box.w", cs!"n"]), (true, [cs!"w"]), (false, [cs!"w"])] := by decide
+
 /-! ## JSON / YAML / TOML shaping -/
 
 /-- the shaped entry keeps the name and the value; the unit is kept exactly when `units` is on and
